@@ -137,6 +137,10 @@ namespace sim
    template< int N, int I > struct w_ld : pegtl::seq< kid< I, 0 > > {};  // limit_depth< N >
    template< int N, int I > struct w_cb : pegtl::seq< kid< I, 0 > > {};  // check_bytes< N >
    template< int I > struct w_id : pegtl::seq< kid< I, 0 > > {};    // no action: what a limit wrapper is replaced by in the unguarded run
+   template< int I > struct w_msg : pegtl::seq< kid< I, 0 > >       // rule with a custom error message (no action)
+   {
+      static constexpr const char* error_message = "custom message of w_msg";
+   };
    template< int J > struct mw_ca : pegtl::seq< mkid< J, 0 > > {};   // change_action< act2 >
    template< int J > struct mw_cc : pegtl::seq< mkid< J, 0 > > {};   // change_control< ctl2 >
    template< int J > struct mw_cas : pegtl::seq< mkid< J, 0 > > {};  // change_action_and_state< act2, sim_state >
